@@ -503,7 +503,7 @@ func main() {
 	}
 	plan := allPairs()
 	off := int(a.Seed % uint64(len(plan)))
-	for i := 0; run.NOps < a.N; i++ {
+	for i := 0; run.NOps < a.N && !run.Enough(); i++ {
 		p := plan[(off+i)%len(plan)]
 		if x.do("new "+p[0]+" "+p[1]) != "ok" {
 			fmt.Fprintln(os.Stderr, "cannot create env", p)
